@@ -52,9 +52,11 @@ PROPS = {
          "iterables with duplicates (setop_rt).",
          "A1-A3, A7; _SetIteration.__init__ is an ASSUMED contract (sorted()/getattr dispatch outside the subset), cross-checked by "
          "setop_rt; five recorded findings (duplicates, reflected operators, ^= with duplicates, generators, rsub with mappings)", "7/C10"),
- "C11": (True, "exploration", "bounded run-time contract stand-in (multiunion_rt)",
-         "Bounded only: seeded multiunion cases on both sides of the 800-element switch, all integer families.",
-         "F-SORT obligations (uniq, radix MSB order) not discharged yet", "7/C11"),
+ "C11": (True, "other", T_C + BOUNDED,
+         "Proved per translation unit (bit-vector validity over the declared key type): the pile order of the most significant "
+         "radix pass agrees with KEY_TYPE's order. Bounded: everything else of multiunion - distribution passes, quicksort, uniq, "
+         "gather, Python fallback (multiunion_rt, both sides of the 800-element switch, extremes, top-bit keys).",
+         "A5, A7; the lemma assumes the other passes are stable distribution sorts (bounded)", "7/C11"),
  "C12": (True, "exploration", "bounded exhaustive run-time contract stand-in (weighted_rt)",
          "Bounded only: operand kinds x weights over 4 keys, all numeric-valued families, both implementations.",
          "weighted merge contracts not discharged yet", "7/C12"),
